@@ -533,11 +533,11 @@ def perturb_spec(rng, spec, allow_type_swap=True, allow_dupcenter=False, allow_q
             k0 = _get(s2, path)["k"]
             per = {"Bin": ["n", "low", "high", "lowtiny", "hightiny"], "SparselyBin": ["width", "origin", "widthtiny", "origintiny"],
                    "CentrallyBin": ["center", "addcenter", "dupcenter", "centertiny"],
-                   "IrregularlyBin": ["edge", "addedge", "dropedge", "edgetiny"], "Stack": ["edge", "addedge", "dropedge", "edgetiny"],
+                   "IrregularlyBin": ["edge", "addedge", "dropedge", "edgetiny"], "Stack": ["edge", "addedge", "dropedge", "edgetiny", "permedges"],
                    "Bag": ["range"], "Label": ["renamekey", "addmember", "kindswap"], "UntypedLabel": ["renamekey", "addmember", "kindswap"],
                    "Index": ["addmember", "kindswap"], "Branch": ["addmember", "kindswap"]}.get(k0, [])
             for c0 in per:
-                if (c0 == "dupcenter" or c0.endswith("tiny")) and not allow_dupcenter:
+                if (c0 in ("dupcenter", "permedges") or c0.endswith("tiny")) and not allow_dupcenter:
                     continue   # a repeated centre / a parameter moved by one float: only for containers that are never filled (C10)
                 cands += [(path, c0)] * 4
             if allow_qname and "q" in _get(s2, path) and k0 != "Select":
@@ -592,6 +592,12 @@ def perturb_spec(rng, spec, allow_type_swap=True, allow_dupcenter=False, allow_q
             if len(node["edges"]) < 2:
                 continue
             node["edges"] = node["edges"][:-1]
+        elif c == "permedges":
+            # the same thresholds in another order: a Stack keeps them as given (it neither sorts nor rejects them), and two
+            # Stacks whose levels mean different cuts must not be merged level by level
+            if len(node["edges"]) < 2:
+                continue
+            node["edges"] = list(reversed(node["edges"]))
         elif c == "qname":
             cur = node["q"][1]
             node["q"] = [node["q"][0], rng.choice([n for n in ["x", "y", "q", "w8", "zz", None] if n != cur])] + list(node["q"][2:])
